@@ -42,7 +42,7 @@ theorem C02_alloc_success (ty : Ty) (bs : Bytes) (v : Val) (rest : Bytes) (hb : 
 theorem C02_tx_alloc_bound (bs : Bytes) :
     (decodeTxA bs).alloc ≤ txDens * bs.length + txSlack := by
   have h := decodeTxA_good txDens txSlack
-    (fun ty ver fs hb => ⟨(body_nice hb).2.1, (body_nice hb).2.2.1, (body_nice hb).2.2.2⟩)
+    (fun ty ver fs hb => body_niceB hb)
     (by decide) (by decide) bs
   cases hr : (decodeTxA bs).res with
   | none => exact h.2 hr
@@ -56,7 +56,7 @@ theorem C02_tx_alloc_bound (bs : Bytes) :
 theorem C02_block_alloc_bound (bs : Bytes) :
     (decodeBlockA bs).alloc ≤ (512 + txDens) * bs.length + txSlack := by
   have h := decodeBlockA_good txDens txSlack
-    (fun ty ver fs hb => ⟨(body_nice hb).2.1, (body_nice hb).2.2.1, (body_nice hb).2.2.2⟩)
+    (fun ty ver fs hb => body_niceB hb)
     (by decide) (by decide) (by decide) (by decide) bs
   cases hr : (decodeBlockA bs).res with
   | none => exact h.2 hr
@@ -84,7 +84,7 @@ theorem C02_constants :
 
 theorem C02_payloads_bounded (ty : Nat) (f : Nat → Ty) (h : payloadOf ty = .covered f) (pv : Nat) :
     bounded (f pv) = true ∧ dens (f pv) ≤ txDens ∧ slack (f pv) ≤ txSlack :=
-  ⟨(nice_covered h pv).2.1, (nice_covered h pv).2.2.1, (nice_covered h pv).2.2.2⟩
+  niceB_covered h pv
 
 /-! ## the unfixed decoders (kept as witnesses) -/
 
@@ -224,5 +224,46 @@ theorem C02_gen_msg_max :
     (Gen.C02.msgMax_dpos.all fun e => decide (e.2 ≤ 80000000)) = true ∧
     ((Gen.C02.msgMax_elanet ++ Gen.C02.msgMax_dpos).filter fun e => decide (Gen.C02.maxMessagePayload < e.2)).map (·.1)
       = ["res_blc", "res_con"] := by decide
+
+/-! ## payload codecs of the p2p / DPoS p2p messages (regenerated, fully inlined token streams) -/
+
+/-- the message types whose writer and reader token sequences coincide (25 of 32; the main-net ones that
+    decode into a pre-sized array through a pointer — addr, inv, getblocks, merkleblock — and the two
+    `Version` messages, which depend on runtime globals, are outside the tokenizer's reach) -/
+theorem C02_gen_msg_mirror :
+    (Gen.C02.msgStreams.filter WireTokens.mirrors).map (·.name) =
+      ["dpos/p2p/msg.Addr", "dpos/p2p/msg.GetBlock", "dpos/p2p/msg.GetBlocks", "dpos/p2p/msg.IllegalProposals",
+       "dpos/p2p/msg.IllegalVotes", "dpos/p2p/msg.Inventory", "dpos/p2p/msg.Ping", "dpos/p2p/msg.Pong",
+       "dpos/p2p/msg.Proposal", "dpos/p2p/msg.RequestConsensus", "dpos/p2p/msg.RequestProposal", "dpos/p2p/msg.ResetView",
+       "dpos/p2p/msg.ResponseBlocks", "dpos/p2p/msg.ResponseConsensus", "dpos/p2p/msg.ResponseInactiveArbitrators",
+       "dpos/p2p/msg.ResponseRevertToDPOS", "dpos/p2p/msg.SidechainIllegalData", "dpos/p2p/msg.VerAck", "dpos/p2p/msg.Vote",
+       "p2p/msg.FilterAdd", "p2p/msg.FilterLoad", "p2p/msg.Ping", "p2p/msg.Pong", "p2p/msg.Reject", "p2p/msg.TxFilterLoad"] := by decide +kernel
+
+/-- the message types with a fully decodable derived schema (`WireTokens.ofToks`), … -/
+theorem C02_gen_msg_derived :
+    (Gen.C02.msgStreams.filter fun s => !WireTokens.hasFail (WireTokens.ofToks s.de)).map (·.name) =
+      ["dpos/p2p/msg.Addr", "dpos/p2p/msg.GetBlock", "dpos/p2p/msg.GetBlocks", "dpos/p2p/msg.IllegalProposals",
+       "dpos/p2p/msg.IllegalVotes", "dpos/p2p/msg.Inventory", "dpos/p2p/msg.Ping", "dpos/p2p/msg.Pong",
+       "dpos/p2p/msg.Proposal", "dpos/p2p/msg.RequestConsensus", "dpos/p2p/msg.RequestProposal", "dpos/p2p/msg.ResetView",
+       "dpos/p2p/msg.ResponseConsensus", "dpos/p2p/msg.ResponseInactiveArbitrators", "dpos/p2p/msg.ResponseRevertToDPOS",
+       "dpos/p2p/msg.SidechainIllegalData", "dpos/p2p/msg.VerAck", "dpos/p2p/msg.Vote", "p2p/msg.DAddr", "p2p/msg.FilterAdd",
+       "p2p/msg.FilterLoad", "p2p/msg.Ping", "p2p/msg.Pong", "p2p/msg.Reject", "p2p/msg.TxFilterLoad"] := by decide +kernel
+
+/-- … every one of which is `bounded` with at most 164 bytes allocated per consumed byte: the generic
+    bound `C02_alloc_bound` applies to all of them -/
+theorem C02_gen_msg_bounded :
+    ((Gen.C02.msgStreams.filter fun s => !WireTokens.hasFail (WireTokens.ofToks s.de)).all fun s =>
+      bounded (WireTokens.ofToks s.de) && decide (dens (WireTokens.ofToks s.de) ≤ 164)) = true := by
+  decide +kernel
+
+/-- the only message readers with a `make` whose size is not the literal 0 are the four main-net
+    readers that check the count against a maximum first -/
+theorem C02_gen_msg_makes :
+    Gen.C02.msgSizedMakes =
+      ["p2p/msg.Addr: make([]p2p.NetAddress, count)", "p2p/msg.Addr: make([]*p2p.NetAddress, 0, count)",
+       "p2p/msg.GetBlocks: make([]common.Uint256, count)", "p2p/msg.GetBlocks: make([]*common.Uint256, 0, count)",
+       "p2p/msg.Inv: make([]InvVect, count)", "p2p/msg.Inv: make([]*InvVect, 0, count)",
+       "p2p/msg.MerkleBlock: make([]common.Uint256, numHashes)",
+       "p2p/msg.MerkleBlock: make([]*common.Uint256, 0, numHashes)"] := by decide
 
 end ElaVerif.C02
